@@ -8,14 +8,14 @@ from ..terms import A, C, F, V, L, NIL, call, conj, TRUE, CUT, show_program, sho
 
 ID = 'C04'
 LEVEL = 'model_checking'
-RULE = ('(a) two engines, generator level: every ordered pair of actor scripts from a menu of 15 (create engine, retractall / retract of predicates the engine does not know yet, load '
+RULE = ('(a) two engines, generator level: every ordered pair of actor scripts from a menu of 17 (create engine, retractall / retract of predicates the engine does not know yet, load '
         'script with overwrite on/off, assert_fact, register_function, clear, atom, start/next/close of a query or a '
-        'retract) x ALL merge orders of their steps; (b) one engine: every pair (and every triple from a subset) of '
+        'retract) x ALL merge orders of their steps (with disjoint vocabularies and, for scripts that clear or intern atoms, with the same atom names on both engines); (b) one engine: every pair (and every triple from a subset) of '
         'side-effect-free queries over disjoint variables (recursion, cut, if-then-else, negation, \\=, once, findall, '
         'infinite enumeration) suspended simultaneously x ALL merge orders of their next() steps (pairs: 4 each, thorough 5; triples: 2 each, thorough 3), including queries over dynamic facts that contain variables; '
         '(c) two real threads, each with its own engine (assert two facts, enumerate a conjunction, use findall and '
         'retract), under a baton scheduler that makes every traced source line of yldprolog and of the loaded script a '
-        'scheduling point: every schedule with <= 1 [thorough: <= 2] preemptions. Oracle, without hand-written '
+        'scheduling point: every schedule with <= 1 preemption [thorough: <= 2 for the conjunction body]. Oracle, without hand-written '
         'expectations: the observation log of each actor / query / thread equals the log of the same script run alone. '
         'The first schedule is executed twice and must reproduce. states = distinct observation logs; transitions = '
         'actor steps resp. scheduling points executed; non-trivial = steps of different actors actually alternate')
@@ -31,7 +31,7 @@ SCRIPTS = {'S1': S1, 'S2': S2}
 
 
 def bounds(tier):
-    return {'preemption_bound': 1 if tier == 'quick' else 2, 'actor_scripts': len(MENU), 'interleaved_queries': len(QUERIES)}
+    return {'preemption_bound': 1 if tier == 'quick' else '2 (conjunction body), 1 (findall, retract bodies)', 'actor_scripts': len(MENU), 'interleaved_queries': len(QUERIES)}
 
 
 MENU = [
@@ -51,6 +51,8 @@ MENU = [
     [('retractall', 'p'), ('assert', 'p', 'r1'), ('start', 'p'), ('next',), ('next',)],
     [('retractall', 'f'), ('retractall', 'p'), ('rstart', 'p'), ('next',), ('assert', 'f', 'r2')],
     [('rstart', 'q'), ('next',), ('retractall', 'q'), ('assert', 'q', 'r3'), ('assert', 'p', 'r4')],
+    [('assert', 'p', 'tom'), ('askatom', 'p', 'tom'), ('askatom', 'p', 'tom'), ('askatom', 'p', 'tom')],
+    [('atom', 'tom'), ('assert', 'p', 'tom'), ('clear',), ('atom', 'tom'), ('clear',)],
 ]
 
 
@@ -90,6 +92,10 @@ class Actor:
                 for _ in impl.engine.unify(arg1, marker):
                     yield False
             yp.register_function(op[1], f)
+        elif k == 'askatom':
+            # a ground query built from a freshly looked-up atom
+            n = len(list(self.yp.query(op[1], [self.yp.atom('%s_%s' % (op[2], tag))])))
+            self.log.append(('ground-answers', n))
         elif k == 'retractall':
             n = len(list(self.yp.query('retractall', [self.yp.functor(op[1], [self.yp.variable()])])))
             self.log.append(('retractall-answers', n))
@@ -132,8 +138,8 @@ class Actor:
         return tuple(self.log), tuple(dump), keys
 
 
-def run_merge(texts, s1, s2, order):
-    a = [Actor('A', s1, texts), Actor('B', s2, texts)]
+def run_merge(texts, s1, s2, order, tags=('A', 'B')):
+    a = [Actor(tags[0], s1, texts), Actor(tags[1], s2, texts)]
     for who in order:
         a[who].step()
     return a[0].finish(), a[1].finish()
@@ -178,7 +184,7 @@ QUERIES = [F('app', V('Q1'), V('Q2'), L([C(1), C(2), C(3)])), F('mem', V('Q1'), 
            F('dyn2', V('Q1'), C(7)), F('t8', V('Q1'), V('Q2')),
            # ground uses of a fact with a repeated variable that need different bindings of it
            F('same', A('a'), A('a')), F('same', A('b'), A('b')), F('dyn2', F('f', C(1)), C(1)), F('dyn2', F('f', C(2)), C(2))]
-TRIPLE_SUBSET = [0, 4, 8, 11, 12, 14, 17, 18, 19]
+TRIPLE_SUBSET = [0, 8, 11, 12, 17, 18]
 DYNAMIC_B = [F('same', V('S'), V('S')), F('dynp', ('v', ('_', 1))), F('dynp', A('k')), F('dyn2', F('f', V('D')), V('D'))]
 
 
@@ -276,9 +282,11 @@ os_sep = _os.sep
 # ---------------------------------------------------------------- plan / run
 def plan(tier):
     sh = [('a', k, 32) for k in range(32)] + [('b2', k, 32, 4 if tier == 'quick' else 5) for k in range(32)] + [('b3', k, 16, 2 if tier == 'quick' else 3) for k in range(16)]
-    bound = 1 if tier == 'quick' else 2
-    nshard = 16 if tier == 'quick' else 64
     for variant in range(3):
+        # two preemptions for the conjunction body only (about a million schedules); the findall and
+        # retract bodies have more scheduling points and stay at one preemption
+        bound = 2 if (tier != 'quick' and variant == 0) else 1
+        nshard = 16 if bound == 1 else 128
         sh += [('c', variant, bound, k, nshard) for k in range(nshard)]
     return sh
 
@@ -307,20 +315,28 @@ def run_shard(spec):
                                   'script %s run alone raised %r' % (s, e), key='alone|%d|%d' % (i1, i2))
                     continue
                 want = (solo[('A', i1)], solo[('B', i2)])
-                for oi, order in enumerate(merge_orders(len(s1) + 1, len(s2) + 1)):
+                variants = [(('A', 'B'), want)]
+                if any(op[0] in ('clear', 'atom') for op in s1 + s2):
+                    # both engines use the SAME atom names (an engine that is cleared must not take
+                    # anything away from another engine that uses the same vocabulary)
+                    for tag, i, s_ in (('S', i1, s1), ('S', i2, s2)):
+                        if (tag, i) not in solo:
+                            solo[(tag, i)] = alone(texts, s_, tag)
+                    variants.append((('S', 'S'), (solo[('S', i1)], solo[('S', i2)])))
+                for oi, (order, (tags, want)) in enumerate((o, v) for o in merge_orders(len(s1) + 1, len(s2) + 1) for v in variants):
                     acc.n['evaluations'] += 1
                     acc.n['validated'] += 1
                     acc.n['transitions'] += len(order)
                     try:
                         with watchdog(60):
-                            got = run_merge(texts, s1, s2, order)
+                            got = run_merge(texts, s1, s2, order, tags)
                     except Hang as e:
                         got = ('hang', str(e))
                     except Exception as e:  # noqa: BLE001
                         got = ('raised', impl.exc_sig(e), repr(e))
                     if got != want:
                         who = 'A' if (got[0] != want[0]) else 'B'
-                        acc.violation('two-engines:actor-log-differs', (0, idx, oi), {'kind': 'a', 's1': i1, 's2': i2, 'order': order},
+                        acc.violation('two-engines:actor-log-differs', (0, idx, oi), {'kind': 'a', 's1': i1, 's2': i2, 'order': order, 'tags': list(tags)},
                                       'engine A runs script %d %s\nengine B runs script %d %s\nstep order (0 = A, 1 = B, first step of each creates its engine): %s\n'
                                       'actor %s observes\n  %r\nbut alone it observes\n  %r' % (i1, s1, i2, s2, order, who, got[0 if who == 'A' else 1] if len(got) == 2 else got, want[0 if who == 'A' else 1]),
                                       key='%d|%d|%s' % (i1, i2, order))
@@ -445,9 +461,10 @@ def replay(case):
     if case['kind'] == 'a':
         texts = {nm: impl.compile_text(show_program(cl)) for nm, cl in SCRIPTS.items()}
         s1, s2 = MENU[case['s1']], MENU[case['s2']]
-        want = (alone(texts, s1, 'A'), alone(texts, s2, 'B'))
+        tg = tuple(case.get('tags', ('A', 'B')))
+        want = (alone(texts, s1, tg[0]), alone(texts, s2, tg[1]))
         try:
-            got = run_merge(texts, s1, s2, case['order'])
+            got = run_merge(texts, s1, s2, case['order'], tuple(case.get('tags', ('A', 'B'))))
         except Exception as e:  # noqa: BLE001
             got = ('raised', repr(e))
         return [] if got == want else [('two-engines:actor-log-differs', 'observed %r\nalone %r' % (got, want))]
